@@ -2056,6 +2056,24 @@ func genExpandCases(r *rng, n int, tier string, cw *caseWriter) {
 			}
 		}
 	}
+	// 0b. chains of parameter, response and path-item references that run into a cycle they are not part of (the library side
+	//     runs in a worker process: a chain followed without end overflows the stack)
+	for _, k := range []string{"parameter", "response", "pathitem"} {
+		for _, cyc := range []int{1, 2} {
+			for _, cross := range []bool{false, true} {
+				g := tailCycleGraph(tailCycleInput{Kind: k, Cycle: cyc, Cross: cross})
+				g.analyse()
+				for _, o := range []exOpts{{}, {Cont: true, Abs: true}} {
+					c := g.call("expand_spec", o)
+					res := exWorkerRun(c)
+					view, depth := exGoView(g, c, res, true)
+					emit(orderedMap{{"op", "expand_spec"}, {"nt", true}, {"tags", g.Tags}, {"docs", g.Docs}, {"root", g.Root}, {"opts", o},
+						{"missing", []string{}}, {"acyclic", g.Acyclic}, {"unf_depth", depth}, {"go", view}})
+					cw.count("tail-into-cycle")
+				}
+			}
+		}
+	}
 	{
 		g, cases := exNamesGraph()
 		for _, rc := range cases {
